@@ -49,7 +49,9 @@ P = {'id': 'C10',
               'bumpvec_exactly_once',
               'bitpacked_entry_roundtrip',
               'bitpacked_refines_list',
-              'bitpacked_get_pushes'],
+              'bitpacked_get_pushes',
+              'ring_pop_bulk_into_slice',
+              'ring_pop_bulk_into_agrees'],
  'consts': True,
  'trusted': ['modelled (M+S), memory = map slot -> option element (None = uninitialised / moved out; reading, moving out or dropping a None slot is '
              'the outcome UB): src/containers/specialized/circular_queue.rs AutoGrowCircularQueue (ensure_power_of_two, with_capacity, reserve, '
@@ -73,7 +75,8 @@ P = {'id': 'C10',
              'BumpVec<T> (new_in, push with its refusal at len >= capacity, pop, as_slice().get, Drop) - coq/C10/ModelCacheVec.v, every slot access '
              'checked against the block; src/containers/specialized/bit_packed_string_vec.rs BitPackedStringVec32/64 (BitPackedEntry packing '
              'offset | length << 32 resp. (offset & 2^40-1) | length << 40 and the fallback accessors, push with its checks in the order of the '
-             'code - the arena is extended before the entry is validated -, get, get_bytes, len) - coq/C10/ModelBitPacked.v',
+             'code - the arena is extended before the entry is validated -, get, get_bytes, len) - coq/C10/ModelBitPacked.v; AutoGrowCircularQueue::pop_bulk at the level of '
+             "the caller's slice (`output[i] = read()` destroys the overwritten value; one or two runs) - coq/C10/ModelRingBulk.v",
              'spec-only cells (shadow Vec/VecDeque oracle with per-id live-instance counting, no mechanism model): '
              'cache_layout::CacheAlignedVec<u64>, memory::cache::CacheAlignedVec for element types other than the drop-counting handle and u8, '
              'MmapVec<u64> (push, pop, resize, truncate, '
@@ -120,7 +123,9 @@ P = {'id': 'C10',
                'refused exactly when full, the refused value destroyed), exactly-once destruction. '
                'BitPackedStringVec32/64: the packed entries read back what was packed, get i is the i-th accepted string for every history (64-bit '
                'variant: below 2^40 bytes, the width of its unchecked offset mask), refusals exactly at the limits. '
-               'The models are tied to the code by replaying enumerated and generated histories in Coq (about 1670 per quick run) and comparing '
+               "pop_bulk into a slice: the first min(|out|, len) slots receive the queue's front in order and exactly the overwritten values are "
+               'destroyed, once each. '
+               'The models are tied to the code by replaying enumerated and generated histories in Coq (about 1700 per quick run) and comparing '
                'every return value, the multiset of destroyed elements, len, capacity, head/tail indices, strings and sorted views. The remaining '
                'containers are decided by a boundary-biased differential oracle only (S-only). The oracle also drives, inside the same histories, the '
                'secondary entry points (aliases, ==, Debug, Index/IndexMut/get_mut/as_mut_slice/iter_mut, iterators, filling and preset constructors, '
